@@ -470,7 +470,9 @@ def geometry_layout_cases(rng, n_variants, int_every=4):
 # 1e-10 of the largest unit): there the two code paths differ by about the tilt d / |b1| (measured on the current
 # source: up to 6e-8 rad for a 1 m beam between mm and km).  The statement evaluated here is
 # therefore: |difference| <= 1e-10 rad + 8 * tilt if d <= ORTHO_WINDOW_M else 1e-10 rad; uniform accept / refuse
-# outside the window.  In-window unit dependence is counted in the coverage, not reported.
+# outside the window.  In-window unit dependence is a recorded KNOWN finding of the unchanged code (two keys
+# '...-threshold-in-beam-unit'); it is reported under those keys only, so a change that widens the window is still reported
+# under the strict keys.
 NEAR_LEN_U = [('mm', 1e-3), ('m', 1.0), ('km', 1e3)]
 ORTHO_WINDOW_M = 1e-10 * 1e3          # 1e-10 in the largest length unit of the sweep, in m
 
@@ -537,6 +539,11 @@ def near_orthogonal_sweep(ctx, rng, n_scalar, n_array):
                               {'case': desc(c, r), 'accepted': desc(*ok[0])})
             else:
                 n_window_dep += 1
+                ctx.violation('scattering_angle_in_yz_plane:orthogonality-threshold-in-beam-unit',
+                              f'scattering_angle_in_yz_plane accepts or refuses the SAME geometry depending on the unit of incident_beam: '
+                              f'off-perpendicular component {dmax:.3g} m is accepted in {ok[0][0]["variant"]["incident_length"]} and refused in '
+                              f'{c["variant"]["incident_length"]} (the test |g.b1| > 1e-10 [unit of b1] |g| uses an absolute length in the '
+                              f'beam\'s own unit)', {'case': desc(c, r), 'accepted': desc(*ok[0])})
         if not ok:
             continue
         ref = next(((c, r) for c, r in ok if c['variant']['incident_length'] == 'm'), ok[0])
@@ -566,6 +573,13 @@ def near_orthogonal_sweep(ctx, rng, n_scalar, n_array):
                         bad = dev > tol
                         if dev > 1e-10 and not bad:
                             n_window_dep += 1
+                            ctx.violation('scattering_angles_with_gravity:dispatch-threshold-in-beam-unit',
+                                          f'{name}: inside the dispatch window (off-perpendicular component {bm["off_perpendicular_m"]:.3g} m '
+                                          f'<= 1e-7 m) the result depends on the unit of incident_beam: {a!r} rad in '
+                                          f'{c["variant"]["incident_length"]} vs {b!r} rad in {ref[0]["variant"]["incident_length"]} '
+                                          f'(difference {dev:.3g} rad, about the tilt {bm["tilt_rad"]:.3g} rad): the threshold '
+                                          f'|g.b1| > 1e-10 [unit of b1] |g| selects the perpendicular-only formula in one unit and the general one in another',
+                                          {'case': desc(c, r), 'reference': desc(*ref), 'element': ix, 'got': a, 'reference_value': b})
                     if bad and (worst is None or dev > worst[0]):
                         worst = (dev, ix, a, b, bm)
                 if worst:
